@@ -2,7 +2,7 @@
 C03 / C12 (source tie) — the hand-written model of the decision `CertAuth::process_child_revoke_key`
 takes on a child's RFC 6492 revocation request (`KM.Ca.processChildRevokeKey`, Ca/Objects.lean) equals
 the definition that the translator `pure_fns` regenerates from `/repo/src/server/ca/certauth.rs` on every
-run (`Generated/PureFnsC03.lean`, `KM.Gen.CertAuth.process_child_revoke_key`).
+run (`Generated/PureFnsC03.lean`, `KM.Gen.C03.CertAuth.process_child_revoke_key`).
 
 `revoke_request_effective` (Props/C03.lean) and the revocation arm of `scope_of_accepted` (Props/C12.lean)
 are about this decision: the class name the child uses is translated to the parent's FIRST, then the
@@ -26,7 +26,7 @@ namespace KM.Props.C03Src
 open KM.Ca.Pub
 
 /-- `UsedKeyState` of the model's `used_keys` entry. -/
-def toUsed : Option Nat → KM.Gen.UsedKeyState Nat
+def toUsed : Option Nat → KM.Gen.C03.UsedKeyState Nat
   | some r => .InUse r
   | none => .Revoked
 
@@ -39,7 +39,7 @@ def toOut : RevokeOut → Except Unit (Option Nat)
 
 /-- The generated body with the model's child record plugged in. -/
 abbrev genRevoke (resources : List Nat) (c : ChildM) (childRcn key : Nat) : Except Unit (Option Nat) :=
-  KM.Gen.CertAuth.process_child_revoke_key (C := ChildM) (R := Nat) (ε := Unit) (α := Option Nat)
+  KM.Gen.C03.CertAuth.process_child_revoke_key (C := ChildM) (R := Nat) (ε := Unit) (α := Option Nat)
     (.ok c) (fun c => c.parentNameForRcn childRcn) (fun r => decide (r ∈ resources))
     (fun c => (get? c.usedKeys key).map toUsed) none () some
 
@@ -47,7 +47,7 @@ abbrev genRevoke (resources : List Nat) (c : ChildM) (childRcn key : Nat) : Exce
 classes, child record, class name and key. -/
 theorem gen_process_child_revoke_key_eq_model (resources : List Nat) (c : ChildM) (childRcn key : Nat) :
     genRevoke resources c childRcn key = toOut (processChildRevokeKey resources c childRcn key) := by
-  unfold genRevoke KM.Gen.CertAuth.process_child_revoke_key processChildRevokeKey
+  unfold genRevoke KM.Gen.C03.CertAuth.process_child_revoke_key processChildRevokeKey
   by_cases hm : c.parentNameForRcn childRcn ∈ resources
   · simp only [hm, decide_true, not_true_eq_false, if_false]
     cases hk : get? c.usedKeys key with
